@@ -45,10 +45,19 @@ Print Assumptions T05_connect_to_meaning.
    exactly the spec's — for every configuration whose non-PAC upstreams are well formed (cfg_wf: what
    config.go validates), every PAC oracle and return string, every rule list, every target. *)
 Theorem T05_route_is_spec : forall cfg rules t, cfg_wf cfg -> route cfg rules t = spec_route cfg rules t.
-Proof. exact (route_is_spec (proj1 ob_connect_switch) (proj2 ob_tls_scheme)
+Proof. exact (route_is_spec (proj1 ob_connect_switch) (proj2 ob_tls_scheme) ob_transport_socks
                (conj (proj1 ob_shared_functions) (proj1 (proj2 ob_shared_functions)))
                T05_precedence T05_pac_first_entry). Qed.
 Print Assumptions T05_route_is_spec.
+
+(* cfg_wf is what config.go enforces for --proxy: every scheme of its list (extracted) is a proxy type both
+   consumers support, the host is a name or an IP literal (no brackets), the port is a number. *)
+Theorem T05_static_upstream_wf : forall sch h p,
+  mem sch upstream_supported_schemes = true ->
+  has_byte 91 h = false -> has_byte 93 h = false -> valid_port16 p = true ->
+  presult_wf (PUrl sch (join_host_port h p)).
+Proof. exact (fun sch h p => static_upstream_wf sch h p (proj1 ob_static_upstream_validated)). Qed.
+Print Assumptions T05_static_upstream_wf.
 
 (* The hop chosen for a plain request and for a CONNECT to the same host is the same, or both fail. *)
 Theorem T05_http_connect_agree : forall cfg rules tp tc,
@@ -59,7 +68,7 @@ Theorem T05_http_connect_agree : forall cfg rules tp tc,
   (forall p, c_pac cfg = Some p -> p tp = p tc) ->
   first_hop (route cfg rules tp) = first_hop (route cfg rules tc).
 Proof. exact (fun cfg rules tp tc Hwf Kp Kc Sp Ha Hh Hf Hp =>
-               http_connect_agree (proj1 ob_connect_switch) (proj2 ob_tls_scheme)
+               http_connect_agree (proj1 ob_connect_switch) (proj2 ob_tls_scheme) ob_transport_socks
                  (conj (proj1 ob_shared_functions) (proj1 (proj2 ob_shared_functions)))
                  T05_precedence T05_pac_first_entry cfg rules tp tc Hwf Kp Kc Sp Ha
                  (spec_hop_by_hostname cfg tp tc Hh Hf Hp)). Qed.
@@ -71,7 +80,7 @@ Theorem T05_unsupported_fails : forall cfg rules t p s kw rest,
   direct_domain cfg (hostname t) = false -> localhost_direct cfg (hostname t) = false ->
   p t = PacOk s -> (kw = b "SOCKS" \/ kw = b "SOCKS4") -> first_entry s = kw ++ 32 :: rest ->
   route cfg rules t = OFail.
-Proof. exact (unsupported_fails (proj1 ob_connect_switch) (proj2 ob_tls_scheme)
+Proof. exact (unsupported_fails (proj1 ob_connect_switch) (proj2 ob_tls_scheme) ob_transport_socks
                (conj (proj1 ob_shared_functions) (proj1 (proj2 ob_shared_functions)))
                T05_precedence T05_pac_first_entry). Qed.
 Print Assumptions T05_unsupported_fails.
@@ -79,7 +88,7 @@ Print Assumptions T05_unsupported_fails.
 (* ... and so does everything else the spec calls a failure (script error, unparsable entry). *)
 Theorem T05_fail_on_both_paths : forall cfg rules t,
   cfg_wf cfg -> spec_hop cfg t = HFail -> route cfg rules t = OFail.
-Proof. exact (fail_on_both_paths (proj1 ob_connect_switch) (proj2 ob_tls_scheme)
+Proof. exact (fail_on_both_paths (proj1 ob_connect_switch) (proj2 ob_tls_scheme) ob_transport_socks
                (conj (proj1 ob_shared_functions) (proj1 (proj2 ob_shared_functions)))
                T05_precedence T05_pac_first_entry). Qed.
 Print Assumptions T05_fail_on_both_paths.
@@ -96,7 +105,7 @@ Theorem T05_single_recipient : forall cfg rules t attempts failures,
          (exchange cfg rules t attempts failures = repeat (EvDial a) n ++ [EvUse a tls w] \/
           exchange cfg rules t attempts failures = repeat (EvDial a) n))
   end.
-Proof. exact (single_recipient (proj1 ob_connect_switch) (proj2 ob_tls_scheme)
+Proof. exact (single_recipient (proj1 ob_connect_switch) (proj2 ob_tls_scheme) ob_transport_socks
                (conj (proj1 ob_shared_functions) (proj1 (proj2 ob_shared_functions)))
                T05_precedence T05_pac_first_entry). Qed.
 Print Assumptions T05_single_recipient.
